@@ -530,6 +530,29 @@ func (o Ops) RefineCmp(op string, x, y *Int, outcome bool, signed bool) *Int {
 // Join is the least upper bound used at control-flow merges.
 func (o Ops) Join(a, b *Int) *Int { return o.JoinGated(a, b, "") }
 
+// Gamma is the gated merge ite(cond, t, f): cond is the key of a branch condition
+// over atoms, t / f the values on its true / false side. Being a function of runtime
+// values it may be hash-consed.
+func (o Ops) Gamma(cond string, t, f *Int) *Int {
+	if t.Lin.Key() == f.Lin.Key() && t.W == f.W {
+		return o.JoinGated(t, f, cond)
+	}
+	w := t.W
+	bv := make([]Bit, w)
+	for i := range bv {
+		bv[i] = bitJoin(t.Bits[i], f.Bits[i])
+	}
+	lo, hi := t.Lo, t.Hi
+	if f.Lo < lo {
+		lo = f.Lo
+	}
+	if f.Hi > hi {
+		hi = f.Hi
+	}
+	key := "ite[" + cond + "](" + t.Lin.Key() + "|" + f.Lin.Key() + ")"
+	return o.mk(w, t.Signed, bv, lo, hi, LinAtom(w, o.In.Derived(key, w, hi, t.Lin, f.Lin)))
+}
+
 // JoinGated is Join with the key of the controlling branch condition recorded in
 // the merge atom. Operands keep their order (a from the earlier predecessor).
 func (o Ops) JoinGated(a, b *Int, gate string) *Int {
